@@ -30,7 +30,8 @@ func init() {
 		Rule: "round trip: every subset of the 14 file types (16 384) with file contents rotating through the reflds seed/enumeration pool, " +
 			"through Document.ToCbor/NewDocumentFromCbor and, for every subset of the 3 evidence mechanisms, through DocumentEx.ToCbor/UnmarshalVerifiableDoc; " +
 			"the evidence bundle alone for all 4^3 (absent | 3 size variants) combinations; every file of reflds.Enumerate for every kind alone and inside the full document; " +
-			"DG13 sizes across the CBOR length-form boundaries. Corruption: for each representative blob of each of the three envelopes EVERY byte position x all 255 other values, " +
+			"DG13 sizes across the CBOR length-form boundaries; every byte-string evidence field x 9 value shapes (leading zero octets, all zero, single octet, empty ...); " +
+			"HISTORIES on one Document object: every sequence of 4 (thorough 5) operations over {export, export through DocumentEx, caller overwrites the returned blob, set a / set b / remove for 5 slots} with every export imported and compared with a map model. Corruption: for each representative blob of each of the three envelopes EVERY byte position x all 255 other values, " +
 			"every truncation length and all 256 one-byte extensions; import must fail or return exactly the exported content. Forged envelopes (each foreign magic, newer versions, also nested and re-sealed) must be rejected. " +
 			"distinct_nontrivial = distinct documents round-tripped + distinct corrupted blobs that got past the CBOR decoding of the outer envelope (by error text; accounting only)",
 		Assume: []string{
@@ -418,7 +419,100 @@ type evSpec struct {
 	CA           int  `json:"ca"`
 	PC           int  `json:"paceCam"`
 	EmptyResults bool `json:"emptyResults,omitempty"` // absent mechanisms carry a Result without Evidence instead of no Result
+	// Field / Shape: one byte-string evidence field ("aa.Nonce", "ca.SmSsc", "pc.EcadIC", ...) takes a value of the
+	// given shape instead of the variant's pattern (see shapeValue)
+	Field string `json:"field,omitempty"`
+	Shape string `json:"shape,omitempty"`
 }
+
+// shapes of a byte-string value of genuine length n. Counters, scalars and coordinates really do have these forms:
+// a send sequence counter is 00..00 02, a private scalar or coordinate starts with a zero octet once in 256.
+var shapeNames = []string{"leading-zero-1", "leading-zeros-all-but-last", "all-zero", "trailing-zero", "all-ff", "one-byte-00", "one-byte-01", "high-bit-first", "empty"}
+
+func shapeValue(shape string, n int) []byte {
+	b := fill(n, 77)
+	for i := range b {
+		if b[i] == 0 {
+			b[i] = 0x5C
+		}
+	}
+	switch shape {
+	case "leading-zero-1":
+		b[0] = 0
+	case "leading-zeros-all-but-last":
+		b = make([]byte, n)
+		b[n-1] = 0x02
+	case "all-zero":
+		b = make([]byte, n)
+	case "trailing-zero":
+		b[n-1] = 0
+	case "all-ff":
+		b = bytes.Repeat([]byte{0xFF}, n)
+	case "one-byte-00":
+		b = []byte{0}
+	case "one-byte-01":
+		b = []byte{1}
+	case "high-bit-first":
+		b[0] = 0x80
+	case "empty":
+		b = []byte{}
+	}
+	return b
+}
+
+// evFields lists the byte-string evidence fields by name with accessors into a bundle's three parts.
+func evFieldPtr(name string, aa *document.ActiveAuthEvidence, ca *document.ChipAuthEvidence, pc *document.PaceCamEvidence) *[]byte {
+	switch name {
+	case "aa.Nonce":
+		if aa != nil {
+			return &aa.Nonce
+		}
+	case "aa.Signature":
+		if aa != nil {
+			return &aa.Signature
+		}
+	case "ca.TermPri":
+		if ca != nil {
+			return &ca.TermPri
+		}
+	case "ca.TermPubKey":
+		if ca != nil {
+			return &ca.TermPubKey
+		}
+	case "ca.SmRapdu":
+		if ca != nil {
+			return &ca.SmRapdu
+		}
+	case "ca.SmSsc":
+		if ca != nil {
+			return &ca.SmSsc
+		}
+	}
+	if pc != nil {
+		switch name {
+		case "pc.Nonce":
+			return &pc.Nonce
+		case "pc.TermMapPri":
+			return &pc.TermMapPri
+		case "pc.TermMapPub":
+			return &pc.TermMapPub
+		case "pc.ChipMapPub":
+			return &pc.ChipMapPub
+		case "pc.TermKaPri":
+			return &pc.TermKaPri
+		case "pc.TermKaPub":
+			return &pc.TermKaPub
+		case "pc.ChipKaPub":
+			return &pc.ChipKaPub
+		case "pc.EcadIC":
+			return &pc.EcadIC
+		}
+	}
+	return nil
+}
+
+var evFieldNames = []string{"aa.Nonce", "aa.Signature", "ca.TermPri", "ca.TermPubKey", "ca.SmRapdu", "ca.SmSsc",
+	"pc.Nonce", "pc.TermMapPri", "pc.TermMapPub", "pc.ChipMapPub", "pc.TermKaPri", "pc.TermKaPub", "pc.ChipKaPub", "pc.EcadIC"}
 
 type mutation struct {
 	Kind    string  `json:"kind"` // sub | trunc | ext | forge | foreign
@@ -450,6 +544,9 @@ func (r recipe) key() string {
 		sb.WriteString("|" + n + "=" + r.Files[n])
 	}
 	fmt.Fprintf(&sb, "|ev=%d%d%d%v", r.Ev.AA, r.Ev.CA, r.Ev.PC, r.Ev.EmptyResults)
+	if r.Ev.Field != "" {
+		sb.WriteString("|" + r.Ev.Field + "=" + r.Ev.Shape)
+	}
 	return sb.String()
 }
 
@@ -509,6 +606,17 @@ func build(rec recipe) (*model, error) {
 		m.obj[i] = obj
 	}
 	m.aa, m.ca, m.pc = aaEvidence(rec.Ev.AA), caEvidence(rec.Ev.CA), pcEvidence(rec.Ev.PC)
+	if rec.Ev.Field != "" {
+		fp := evFieldPtr(rec.Ev.Field, m.aa, m.ca, m.pc)
+		if fp == nil {
+			return nil, fmt.Errorf("evidence field %q not present in the recipe", rec.Ev.Field)
+		}
+		n := len(*fp)
+		if n == 0 {
+			n = 8
+		}
+		*fp = shapeValue(rec.Ev.Shape, n)
+	}
 	return m, nil
 }
 
@@ -1448,6 +1556,75 @@ outer2:
 		}
 	}
 
+	// ---- (3b) evidence value shapes: every byte-string field x every shape, for each size variant
+	sec = "roundtrip/evidence-value-shapes"
+	c.SecBound(sec, fmt.Sprintf("%d byte-string evidence fields x %d value shapes (leading zero octet, all zero but the last octet as in a real send sequence counter, all zero, trailing zero, all FF, single octet 00 / 01, high bit first, empty) x 3 size variants x {bundle alone, DocumentEx with full document}", len(evFieldNames), len(shapeNames)))
+	for _, fn := range evFieldNames {
+		for _, sh := range shapeNames {
+			for v := 1; v <= 3; v++ {
+				if !c.Mine() {
+					continue
+				}
+				ev := evSpec{Field: fn, Shape: sh}
+				switch fn[:2] {
+				case "aa":
+					ev.AA = v
+				case "ca":
+					ev.CA = v
+				default:
+					ev.PC = v
+				}
+				rn.do(sec, recipe{Importer: "evidence", Ev: ev})
+				ev.AA, ev.CA, ev.PC = max(ev.AA, 1), max(ev.CA, 1), max(ev.PC, 1)
+				rn.do(sec, recipe{Importer: "verifiable", Files: docSeedFiles(), Ev: ev})
+			}
+		}
+	}
+
+	// ---- (3c) histories on one Document object
+	sec = "roundtrip/histories-on-one-object"
+	{
+		alpha := histAlphabet()
+		depth := 4
+		if thorough {
+			depth = 5
+		}
+		c.SecBound(sec, fmt.Sprintf("every sequence of exactly %d operations over %d operations {export, export through DocumentEx, caller overwrites the returned blob, set content a / b and remove for each of cardAccess, com, sod, dg1 (NewDG), dg14 (NewDG)} followed by a final export; every export in the sequence is imported and compared with a map model", depth, len(alpha)))
+		total := 1
+		for i := 0; i < depth; i++ {
+			total *= len(alpha)
+		}
+		for n := 0; n < total; n++ {
+			if !c.Mine() {
+				continue
+			}
+			if n%4096 == 0 && c.Expired() {
+				c.SecNotExhaustive(sec, fmt.Sprintf("deadline at sequence %d of %d", n, total))
+				break
+			}
+			var h histRecipe
+			for i, x := 0, n; i < depth; i++ {
+				h.Ops = append(h.Ops, alpha[x%len(alpha)])
+				x /= len(alpha)
+			}
+			h.Ops = append(h.Ops, histOp{Kind: "E"})
+			key, what, outcome, exports, herr := runHistory(h)
+			if herr != nil {
+				c.HarnessError("history %v: %v", h.Ops, herr)
+				break
+			}
+			c.Eval(int64(exports))
+			c.Outcome(sec, outcome)
+			if n%97 == 0 {
+				c.Distinct(fmt.Sprintf("hist/%v", h.Ops))
+			}
+			if key != "" {
+				hh := h
+				c.Violation(sec, key, what, hh, func() bool { k, _, _, _, _ := runHistory(hh); return k != "" })
+			}
+		}
+	}
+
 	// ---- (4) contents: every enumerated file of every kind, alone and inside the full document
 	sec = "roundtrip/content-sweep"
 	{
@@ -1738,6 +1915,15 @@ func replay(c *vc.Ctx, raw json.RawMessage) string {
 			return fmt.Sprintf("%s import error: %v", bare.Importer, err)
 		}
 		return describe(bare.Importer, r)
+	}
+	// (a2) a history on one Document object
+	var hr histRecipe
+	if json.Unmarshal(doc.Case, &hr) == nil && len(hr.Ops) > 0 {
+		k, w, outcome, exports, herr := runHistory(hr)
+		if k != "" {
+			c.Violation(doc.Section, k, w, hr, nil)
+		}
+		return fmt.Sprintf("history %v: %d exports, outcome %s; verdict: %s %s %v", hr.Ops, exports, outcome, k, w, herr)
 	}
 	// (b) a recipe: rebuild the document, export, mutate, import, judge
 	var rec recipe
